@@ -873,19 +873,23 @@ def decoy_history(ctx, kind):
     world = World(ctx, kind, levels=2, meta=1, name='decoy-' + kind.name)
     try:
         k = keyrec(['time'])
-        r1 = {'flow': 'wms', 'layer': [LAYER], 'dims': [[k, ['..', 'zz']]], 'tile': [0, 0, 0]}
-        r2 = {'flow': 'wms', 'layer': [LAYER], 'dims': [[k, ['..', '..', 'decoy']]], 'tile': [0, 0, 0]}
-        o1 = observe(world, r1)
-        o2 = observe(world, r2)
+
+        def rq(*segs):
+            return {'flow': 'wms', 'layer': [LAYER], 'dims': [[k, list(segs)]], 'tile': [0, 0, 0]}
+        # stepping stones: an ordinary dimension directory (time-v1) and the directory the attack itself creates (time-..)
+        hist = [rq('v1'), rq('..', 'zz'), rq('..', '..', 'decoy'), rq('v1', '..', '..', 'decoy'), rq('v1', '..', '..', '..', 'decoy'),
+                rq('v1', '..', '..', 'cc2'), rq('v1', '..', 'time-v1')]
+        obs = [observe(world, r) for r in hist]
+        o2 = obs[2]
         ctx.count(('decoy', kind.name))
-        for req, o in ((r1, o1), (r2, o2)):
+        for i, (req, o) in enumerate(zip(hist, obs)):
             if o.unsafe:
                 acc = sorted({a for a, _e, _p in o.unsafe})
                 ctx.violation({'kind': 'escape', 'flow': 'wms', 'via': 'dimensions', 'backend': kind.backend},
-                              '%s: history [TIME=../zz, TIME=../../decoy]: request %s made MapProxy %s %s (access %s) outside '
-                              'the cache directory' % (kind.name, describe(req), o.unsafe[0][1],
-                                                       os.path.normpath(o.unsafe[0][2]).replace(world.base, '$B'), '+'.join(acc)),
-                              {'kind': kind.name, 'levels': 2, 'meta': 1, 'requests': [r1, r2]})
+                              '%s: history %s: request %s made MapProxy %s %s (access %s) outside the cache directory' % (
+                                  kind.name, [flat(h['dims'][0][1]) for h in hist[:i + 1]], describe(req), o.unsafe[0][1],
+                                  os.path.normpath(o.unsafe[0][2]).replace(world.base, '$B'), '+'.join(acc)),
+                              {'kind': kind.name, 'levels': 2, 'meta': 1, 'requests': hist[:i + 1]})
         return any(a == 'read' for a, _e, p in o2.unsafe)
     finally:
         world.close()
@@ -905,6 +909,9 @@ LAYER_POOL = [['..'], ['lay', '..', 'lay'], ['', 'etc'], ['lay', ''], ['LAY'], [
 def rand_value(rng, hostile):
     if not hostile:
         return [rng.choice(DIM_VALUES + ['2021-01-01', 'default', ''])]
+    if rng.random() < 0.35:      # structured: an existing directory as stepping stone, some "..", a target next to the cache
+        stone = rng.choice([[], ['v1'], ['v2'], ['..'], ['.'], ['v1', 'a']])
+        return stone + ['..'] * rng.randint(1, 4) + rng.choice([['decoy'], ['cc2'], ['data', 'decoy'], ['cc', 'time-v1'], ['tlocks'], []])
     return [rng.choice(HOSTILE_TOK) for _ in range(rng.randint(1, 6))]
 
 
@@ -938,7 +945,7 @@ def rand_request(rng, world):
         elif k == 4:
             x = 2147483647
         else:
-            x, y = 2 ** z, -1
+            x = 2 ** z
     req['tile'] = [x, y, z]
     # dimensions
     if flow == 'wms':
